@@ -108,6 +108,8 @@ inductive Arg where
   | signStart (batchId : String) (pid : Int) (createdAt : Time) (tasks : List Task)
   | partialSigns (batchId : String) (pid : Int) (signs : List (String × Bytes)) (createdAt : Time)
   | signErr (pid : Int) (error : Option String) (createdAt : Time)
+  /-- a value of a type no callback accepts (e.g. the error value `FSMRequestFromMessage` returns for undecodable JSON) -/
+  | other
   deriving Repr, DecidableEq, Inhabited
 
 /-- response data of the callbacks (fsm/types/responses) -/
